@@ -132,7 +132,7 @@ def _jfun(interp, xs):
             j = lambda t: z3.StringVal('')
         else:
             f = z3.Function('join[%s]' % xs.uid, z3.IntSort(), z3.StringSort())
-            interp.st.assume(f(z3.IntVal(0)) == z3.StringVal(''))
+            interp.st._add(f(z3.IntVal(0)) == z3.StringVal(''))       # definitional: outside any merge scope
             j = lambda t, f=f: f(_zi(t))
             a['base'] = True
         a['jfun'] = j
@@ -166,8 +166,8 @@ def _unfold(interp, xs, t):
             st.no_fork -= 1
     if not isinstance(e, (SStr, str)):
         raise _pyraise(TypeError('sequence item: expected str instance'))
-    st.assume(z3.Implies(guard, j(t + 1) == z3.Concat(j(t), to_z3(e))))
-    st.assume(z3.Implies(guard, z3.Length(j(t + 1)) == z3.Length(j(t)) + z3.Length(to_z3(e))))
+    st._add(z3.Implies(guard, j(t + 1) == z3.Concat(j(t), to_z3(e))))       # definitional: outside any merge scope
+    st._add(z3.Implies(guard, z3.Length(j(t + 1)) == z3.Length(j(t)) + z3.Length(to_z3(e))))
 
 
 def prefix_join(interp, xs, i):
@@ -346,12 +346,12 @@ def lines_of_text(interp, t):
     xs.aux['base'] = True
     st.ghost[key] = (tt, xs)
     j = z3.Int('j!lines')
-    st.assume(n >= 0)
-    st.assume(lp(tt, z3.IntVal(0)) == z3.StringVal(''))
-    st.assume(lp(tt, n) == tt)
-    st.assume((n == 0) == (tt == z3.StringVal('')))
-    st.assume(z3.ForAll([j], z3.Implies(z3.And(j >= 0, j < n), is_line_term(la(tt, j)))))
-    st.assume(z3.ForAll([j], z3.Implies(z3.And(j >= 0, j < n - 1), z3.SuffixOf(_nl(), la(tt, j)))))
+    st._add(n >= 0)
+    st._add(lp(tt, z3.IntVal(0)) == z3.StringVal(''))
+    st._add(lp(tt, n) == tt)
+    st._add((n == 0) == (tt == z3.StringVal('')))
+    st._add(z3.ForAll([j], z3.Implies(z3.And(j >= 0, j < n), is_line_term(la(tt, j)))))
+    st._add(z3.ForAll([j], z3.Implies(z3.And(j >= 0, j < n - 1), z3.SuffixOf(_nl(), la(tt, j)))))
     return xs
 
 
